@@ -353,6 +353,12 @@ pub struct SpatialTrackDistances {
 impl SpatialTrackDistances {
 	#[must_use]
 	pub(crate) fn relative_distance(&self, distance: f32) -> f32 {
+		// a range without extent (or an inverted one) has no slope: full volume
+		// before the maximum distance, silence at or beyond it. without this,
+		// min == max divides 0.0 by 0.0 (NaN) and min > max panics in `clamp`.
+		if !(self.min_distance < self.max_distance) {
+			return if distance < self.max_distance { 0.0 } else { 1.0 };
+		}
 		let distance = distance.clamp(self.min_distance, self.max_distance);
 		(distance - self.min_distance) / (self.max_distance - self.min_distance)
 	}
